@@ -29,6 +29,24 @@ def ops_streams(ctx, res, env_extra=None, backends=("serial", "sse", "avx2"), on
 
 
 # ------------------------------------------------------------------------------------------- C03
+def translators_C03(repo):
+    """source-level tie: Generated/OpsAst.lean is re-translated from clang's AST of the functors on every run; the
+    equalities with the hand model (Proofs/OpsAstEq.lean) and the transported C03 theorems (Properties/C03Ast.lean)
+    are then re-checked by `lake build`"""
+    r = cl.run(["python3", os.path.join(cl.HERE, "gen_ops_ast.py"), "--repo", repo])
+    info = {"ok": r.returncode == 0}
+    if r.returncode != 0:
+        info["err"] = (r.stdout + r.stderr)[-2000:]
+    else:
+        try:
+            info.update(json.loads(r.stdout.strip().splitlines()[-1]))
+            info.pop("node_kinds", None)
+        except Exception as e:
+            info["ok"] = False
+            info["err"] = "unparsable summary: %s" % e
+    return {"gen_ops_ast": info}
+
+
 def streams_C03(ctx, res):
     return ops_streams(ctx, res)
 
@@ -107,9 +125,10 @@ print(json.dumps(out))
 
 PROPS = {
     "C03": {
-        "streams": streams_C03, "search": search_C03,
+        "streams": streams_C03, "search": search_C03, "translators": translators_C03,
         "rule": "functors called directly on table rows with boundary-directed operand tuples (sum=p-1/p/p+1, product≡0/1/p-1, x*y' within ±2 of a multiple of 2^w, lazy words up to 2^w-1) plus random, every tuple rotated through SIMD lanes, three backends; distinct = distinct op lines; all are non-trivial (each line is one functor evaluation compared with model and exact spec)",
-        "trusted_base": COMMON_TB + ["x86 SSE/AVX2 instructions execute as documented (kernels are compared lane by lane with the scalar model)"],
+        "trusted_base": COMMON_TB + ["x86 SSE/AVX2 instructions execute as documented (kernels are compared lane by lane with the scalar model)",
+                                     "source-level tie of the scalar functors: clang++-14's typed AST (-ast-dump=json) of the instantiated operator() bodies, tools/gen_ops_ast.py's traversal, and the per-node integer semantics of lean/NflVerif/Model/CSem.lean (signed `int` overflow read as wrap-around at the sites listed under translators.gen_ops_ast.ub_wrap_assumed)"],
         "assumptions": ["inputs in the range the property states (x,y,z < p; any word where the property says so)"],
     },
     "C06": {
